@@ -294,8 +294,20 @@ def run_shard(spec, ctx):
         # builders work on the stack, not on the registers
         off = j % 4 == 1
         ctx.tab('registers', 'off' if off else 'default')
-        with env.global_flags(env.REGISTERS_OFF if off else {}):
-            scenario(ctx, ctx.rng(j), j)
+        # ... and another quarter with an embedder signature extension
+        # registered for the whole process (it rewrites sigfield1 once per
+        # signature-related instruction, for builders and locks alike)
+        ext = j % 4 == 2
+        ctx.tab('signature_extension', 'registered' if ext else 'none')
+        if ext:
+            import tapescript
+            tapescript.add_signature_extension(env.rewriting_extension)
+        try:
+            with env.global_flags(env.REGISTERS_OFF if off else {}):
+                scenario(ctx, ctx.rng(j), j)
+        finally:
+            if ext:
+                tapescript.reset_signature_extensions()
     env.Clock.now = env.NOW0
 
 
